@@ -3,6 +3,7 @@ package c06
 import (
 	"encoding/json"
 	"fmt"
+	"net/http"
 	"sort"
 	"sync"
 	"sync/atomic"
@@ -17,15 +18,47 @@ import (
 	"verifharness/vkit"
 )
 
-// endToEnd sends real HTTP requests through the real handler chain to a stub upstream under a token-bucket schema:
-// a request is "admitted" iff it reached the stub; every other request must be answered 429 with a Status body; the
-// admissions obey the same upper bound on the intervals (request sent, response received). No-op updates of the cluster
-// object are applied meanwhile through the real controller.
+// inflight wraps the whole chain: number of requests whose outermost handler has not returned yet. The stub log is only
+// judged when it is zero (whatever a handler does after it answered the client has then happened).
+type inflight struct {
+	inner http.Handler
+	n     int64
+}
+
+func (h *inflight) ServeHTTP(w http.ResponseWriter, r *http.Request) {
+	atomic.AddInt64(&h.n, 1)
+	defer atomic.AddInt64(&h.n, -1)
+	h.inner.ServeHTTP(w, r)
+}
+
+type exch struct {
+	id       string
+	resource string
+	tc, tr   int64
+	status   int
+	body     []byte
+	header   http.Header
+	err      error
+	client   int
+}
+
+// endToEnd sends real HTTP requests through the real handler chain to a stub upstream under a token-bucket schema; half of
+// them are on the `events` resource (the dispatcher's 429 has a variant for it). Judged per request id against the stub's
+// log once the gateway is idle:
+//   - a request is admitted iff the stub received it; the stub received it at most once;
+//   - every request that was not forwarded is answered 429 with a Status body, and conversely every request answered 429
+//     reached NO stub ("the rest are answered 429": refused means refused, the upstream must not see it);
+//   - the requests the stub received obey burst + qps*T on the intervals (request sent, response received).
+//
+// No-op updates of the cluster object are applied meanwhile through the real controller.
 func endToEnd(r *vkit.R) {
 	n := r.N(6, 60)
 	stub := bed.NewStub("c06")
 	defer stub.Close()
-	gw := bed.NewGateway(bed.GatewayOptions{}).Start()
+	gw := bed.NewGateway(bed.GatewayOptions{})
+	fl := &inflight{inner: gw.Handler}
+	gw.Handler = fl
+	gw.Start()
 	defer gw.Close()
 	tok := gw.Tokens.Add(&user.DefaultInfo{Name: "alice"})
 	g := r.Rng.Fork("e2e")
@@ -51,8 +84,7 @@ func endToEnd(r *vkit.R) {
 			return
 		}
 		var mu sync.Mutex
-		var evs []ev
-		var bad []string
+		var xs []exch
 		var stopSync int32
 		var swg sync.WaitGroup
 		nNoop := 0
@@ -73,29 +105,18 @@ func endToEnd(r *vkit.R) {
 				go func(c int) {
 					defer wg.Done()
 					for k := 0; k < 24/clients+int(burst)/clients+2; k++ {
-						id := fmt.Sprintf("c06-%d", atomic.AddInt64(&idn, 1))
-						req := bed.NewRequest("GET", host, "/api/v1/namespaces/default/pods", tok, id, nil)
+						num := atomic.AddInt64(&idn, 1)
+						id := fmt.Sprintf("c06-%d", num)
+						resource := "pods"
+						if num%2 == 0 {
+							resource = "events"
+						}
+						req := bed.NewRequest("GET", host, "/api/v1/namespaces/default/"+resource, tok, id, nil)
 						tc := bed.Now()
 						resp := gw.Do(req)
 						tr := bed.Now()
-						forwarded := stub.CountID(id) > 0
 						mu.Lock()
-						evs = append(evs, ev{tc: tc, tr: tr, ok: forwarded, caller: c})
-						switch {
-						case resp.Err != nil:
-							bad = append(bad, "client error: "+resp.Err.Error())
-						case forwarded && resp.Status != 200:
-							bad = append(bad, fmt.Sprintf("forwarded request answered %d", resp.Status))
-						case !forwarded:
-							var st metav1.Status
-							if resp.Status != 429 || json.Unmarshal(resp.Body, &st) != nil || st.Kind != "Status" || st.Code != 429 {
-								r.Violation("C06/e2e/refusal-not-429-status",
-									fmt.Sprintf("a request that was not forwarded under token bucket qps=%d burst=%d was answered %d %.120q instead of a 429 Status", qps, burst, resp.Status, resp.Body),
-									map[string]interface{}{"qps": qps, "burst": burst, "status": resp.Status, "body": string(resp.Body), "header": resp.Header})
-							} else {
-								r.Count("e2e_refusals_429", 1)
-							}
-						}
+						xs = append(xs, exch{id: id, resource: resource, tc: tc, tr: tr, status: resp.Status, body: resp.Body, header: resp.Header, err: resp.Err, client: c})
 						mu.Unlock()
 					}
 				}(c)
@@ -105,10 +126,47 @@ func endToEnd(r *vkit.R) {
 		}
 		atomic.StoreInt32(&stopSync, 1)
 		swg.Wait()
-		gw.Delete(host)
-		if len(bad) > 0 {
-			r.Inconclusive("C06 e2e exchange failed for a reason unrelated to flow control: " + bad[0])
+		if !vkit.WaitFor(10*time.Second, func() bool { return atomic.LoadInt64(&fl.n) == 0 }) {
+			r.Inconclusive("watchdog: the gateway's handlers did not all return")
 			return
+		}
+		gw.Delete(host)
+
+		// ---- judge against the stub's log ----
+		var evs []ev
+		for _, x := range xs {
+			cnt := stub.CountID(x.id)
+			forwarded := cnt > 0
+			w := map[string]interface{}{"qps": qps, "burst": burst, "request": x.id, "resource": x.resource, "status": x.status, "body": string(x.body), "times_received_by_upstream": cnt}
+			class := "other"
+			if x.resource == "events" {
+				class = "events"
+			}
+			switch {
+			case x.err != nil:
+				r.Inconclusive("C06 e2e exchange failed for a reason unrelated to flow control: " + x.err.Error())
+				return
+			case cnt > 1:
+				r.Violation("C06/e2e/forwarded-more-than-once", fmt.Sprintf("request %s (%s) was received %d times by the upstream", x.id, x.resource, cnt), w)
+			case forwarded && x.status == 429:
+				r.Violation("C06/e2e/answered-429-but-forwarded/resource="+class,
+					fmt.Sprintf("token bucket qps=%d burst=%d: a request on resource %q was answered 429 and nevertheless forwarded to the upstream", qps, burst, x.resource), w)
+			case forwarded && x.status != 200:
+				r.Inconclusive(fmt.Sprintf("C06 e2e: forwarded request answered %d", x.status))
+				return
+			case !forwarded:
+				var st metav1.Status
+				if x.status != 429 || json.Unmarshal(x.body, &st) != nil || st.Kind != "Status" || st.Code != 429 {
+					r.Violation("C06/e2e/refusal-not-429-status",
+						fmt.Sprintf("a request that was not forwarded under token bucket qps=%d burst=%d was answered %d %.120q instead of a 429 Status", qps, burst, x.status, x.body), w)
+				} else {
+					r.Count("e2e_refusals_429", 1)
+					if x.resource == "events" {
+						r.Count("e2e_refusals_429_on_events", 1)
+					}
+				}
+			}
+			evs = append(evs, ev{tc: x.tc, tr: x.tr, ok: forwarded, caller: x.client})
 		}
 		sort.Slice(evs, func(a, b int) bool { return evs[a].tc < evs[b].tc })
 		var adm []ev
